@@ -1,8 +1,10 @@
 package cli
 
 import (
+	"encoding/json"
 	"fmt"
 	"io"
+	"math/big"
 	"strings"
 
 	"github.com/itchyny/go-yaml"
@@ -43,8 +45,31 @@ func (m *yamlMarshaler) marshal(v any, w io.Writer) error {
 	} else {
 		enc.SetIndent(2)
 	}
-	if err := enc.Encode(v); err != nil {
+	if err := enc.Encode(normalizeYAMLBigInts(v)); err != nil {
 		return err
 	}
 	return enc.Close()
+}
+
+// normalizeYAMLBigInts converts the big integers to json.Number
+// because the YAML encoder writes them as strings.
+func normalizeYAMLBigInts(v any) any {
+	switch v := v.(type) {
+	case map[string]any:
+		w := make(map[string]any, len(v))
+		for k, x := range v {
+			w[k] = normalizeYAMLBigInts(x)
+		}
+		return w
+	case []any:
+		w := make([]any, len(v))
+		for i, x := range v {
+			w[i] = normalizeYAMLBigInts(x)
+		}
+		return w
+	case *big.Int:
+		return json.Number(v.String())
+	default:
+		return v
+	}
 }
